@@ -124,7 +124,16 @@ def run(ctx):
         m = dict(source=src, passes=passes, headers=[dict(start=x['start'], stop=x['stop'], spacing=x['spacing']) for x in rp])
         ctx.case(('file', ci), len(passes) > 1 or any(len(p['blocks']) > 1 for p in passes))
         try:
-            fas = ReadBIT.create_bit_frame_array_from_file(io.BytesIO(data))
+            # the file object handed over may have been looked at before: asked whether it is a BIT file, read once already, peeked at
+            fobj = io.BytesIO(data)
+            used = ci % 4
+            if used == 1:
+                ReadBIT.is_bit_file(fobj)
+            elif used == 2:
+                ReadBIT.create_bit_frame_array_from_file(fobj)
+            elif used == 3:
+                fobj.read(16)
+            fas = ReadBIT.create_bit_frame_array_from_file(fobj)
         except Exception as e:
             ctx.fail('create_bit_frame_array_from_file raised %s: %s' % (type(e).__name__, e), m, sig=dict(kind='exception'))
             continue
